@@ -32,4 +32,6 @@ CONSTANTS
   PlainIdentity = FALSE
   KeyByNumber = TRUE
   CryptProbeDirectOnly = FALSE
+  ParmRefLayouts = {}
+  InlinedAsIs = FALSE
 INVARIANTS Shape
